@@ -19,6 +19,7 @@ class Unknown(Exception):
 
 
 _PURE = {
+    "set": set, "frozenset": frozenset, "sorted": sorted, "list": list, "tuple": tuple,
     "float": float, "int": int, "str": str, "abs": abs, "bool": bool, "len": len, "round": round, "min": min, "max": max, "divmod": divmod,
     "math.isnan": math.isnan, "math.isinf": math.isinf, "math.isfinite": math.isfinite, "math.copysign": math.copysign, "math.floor": math.floor,
     "math.ceil": math.ceil, "math.trunc": math.trunc, "math.fabs": math.fabs,
@@ -26,6 +27,8 @@ _PURE = {
 }
 _STR_METHODS = {"startswith", "endswith", "strip", "lstrip", "rstrip", "partition", "rpartition", "split", "rsplit", "ljust", "rjust", "zfill", "lower", "upper", "replace",
                 "removeprefix", "removesuffix", "isdigit", "find", "index", "count", "join", "format"}
+_SET_METHODS = {"intersection", "union", "difference", "issubset", "issuperset", "isdisjoint", "symmetric_difference", "copy"}
+_RE_PURE = {"re.split", "re.findall"}
 _TYPES = {"float": float, "int": int, "str": str, "bool": bool, "bytes": bytes}
 _ATTRS = {"math.inf": math.inf, "math.nan": math.nan, "math.pi": math.pi}
 
@@ -52,6 +55,11 @@ def ev(t: Sym, env: Dict[Any, Any]) -> Any:
         return tuple(ev(x, env) for x in t[1])
     if k == "list":
         return [ev(x, env) for x in t[1]]
+    if k == "set":
+        try:
+            return {ev(x, env) for x in t[1]}
+        except TypeError as e:
+            raise Unknown(f"set: {e}")
     if k == "item":
         seq = ev(t[1], env)
         try:
@@ -114,7 +122,7 @@ def ev(t: Sym, env: Dict[Any, Any]) -> Any:
                 "==": lambda: a == b, "!=": lambda: a != b, "<": lambda: a < b, ">": lambda: a > b, "<=": lambda: a <= b, ">=": lambda: a >= b,
                 "is": lambda: a is b or (type(a) is type(b) and a == b and not isinstance(a, float)), "is not": lambda: not (a is b or (type(a) is type(b) and a == b and not isinstance(a, float))),
                 "+": lambda: a + b, "-": lambda: a - b, "*": lambda: a * b, "/": lambda: a / b, "//": lambda: a // b, "%": lambda: a % b, "**": lambda: a ** b,
-                "in": lambda: a in b, "not in": lambda: a not in b,
+                "in": lambda: a in b, "not in": lambda: a not in b, "&": lambda: a & b, "|": lambda: a | b, "^": lambda: a ^ b, "<<": lambda: a << b, ">>": lambda: a >> b,
             }[op]()
         except KeyError:
             raise Unknown(op)
@@ -161,6 +169,26 @@ def ev(t: Sym, env: Dict[Any, Any]) -> Any:
                     return getattr(recv, t[1][2])(*args, **kw)
                 except (TypeError, ValueError) as e:
                     raise Unknown(f"{t[1][2]}: {e}")
+        if t[1][0] == "a" and t[1][2] in _SET_METHODS and not t[3]:
+            try:
+                recv = ev(t[1][1], env)
+            except Unknown:
+                recv = None
+            if isinstance(recv, (set, frozenset)):
+                try:
+                    return getattr(recv, t[1][2])(*[ev(x, env) for x in t[2]])
+                except TypeError as e:
+                    raise Unknown(f"{t[1][2]}: {e}")
+        if name in _RE_PURE:
+            import re as _re
+            args = [ev(x, env) for x in t[2]]
+            kw = {k_: ev(v_, env) for k_, v_ in t[3]}
+            if not all(isinstance(a, (str, int)) for a in args):
+                raise Unknown(f"{name}: non-constant argument")
+            try:
+                return getattr(_re, name.split(".")[-1])(*args, **kw)
+            except (TypeError, ValueError, _re.error) as e:
+                raise Unknown(f"{name}: {e}")
         if name in ("timedelta", "datetime.timedelta"):
             import datetime as _dt
             try:
